@@ -27,7 +27,11 @@ pub fn scenarios(thorough: bool) -> Vec<Scenario> {
         st.pairs = false;
         st.max_txs_per_block = 3;
         st.seal_actions = vec![None];
-        v.push(sc("custom02-stake-and-spends", NetID::Custom02, 0, st, 6));
+        v.push(sc("custom02-stake-and-spends", NetID::Custom02, 0, st.clone(), 6));
+        // the same in the last block of a staking epoch (the stake starts with the next block's epoch) and across the boundary
+        let mut end = sc("custom02-stake-and-spends-at-epoch-end", NetID::Custom02, 0, st, 6);
+        end.pre = vec![crate::stf::Action::Jump(199_998)];
+        v.push(end);
         // mainnet: the one faucet that may be applied again (in the same block, in later blocks) next to ordinary transfers
         let mut mn = AlphaCfg::base();
         mn.per_denom = 1;
@@ -53,7 +57,10 @@ pub fn scenarios(thorough: bool) -> Vec<Scenario> {
         st.faucets = false;
         st.pairs = false;
         st.max_txs_per_block = 3;
-        v.push(sc("custom02-stake-and-spends", NetID::Custom02, 0, st, 7));
+        v.push(sc("custom02-stake-and-spends", NetID::Custom02, 0, st.clone(), 7));
+        let mut end = sc("custom02-stake-and-spends-at-epoch-end", NetID::Custom02, 0, st, 7);
+        end.pre = vec![crate::stf::Action::Jump(199_998)];
+        v.push(end);
         v.push(sc("custom08-utxo", NetID::Custom08, 0, cfg.clone(), 6));
         v.push(sc("testnet-utxo", NetID::Testnet, 0, cfg.clone(), 6));
         v.push(sc("custom02-fees", NetID::Custom02, 65536, cfg, 5));
